@@ -74,6 +74,11 @@ func (g *gen) value(label string) (string, int) {
 		vl = rapid.IntRange(701, 3000).Draw(g.t, label+"l3")
 	default:
 		vl = rapid.IntRange(3001, 9000).Draw(g.t, label+"l4")
+		if rapid.IntRange(0, 2).Draw(g.t, label+"huge") == 0 {
+			// a WAL record spanning several 32 KiB blocks (read faults on its
+			// continuation blocks during recovery are a path of their own)
+			vl = rapid.IntRange(33000, 90000).Draw(g.t, label+"l5")
+		}
 	}
 	return tag, vl
 }
@@ -348,6 +353,19 @@ func genPlan(t *rapid.T) Plan {
 			j := rapid.IntRange(lo, hi).Draw(t, fmt.Sprintf("r%drestartat", i))
 			if p.Steps[j].K != "faultsoff" {
 				p.Steps[j] = Step{K: "restart"}
+				// Reads of the WAL during recovery: make sure (half of the time) that
+				// the log to be replayed holds an acknowledged record spanning several
+				// 32 KiB blocks, whose continuation blocks are read separately.
+				if len(r.Classes) == 1 && r.Classes[0] == "wal" && j > 0 && p.Steps[j-1].K != "faultsoff" && p.Steps[j-1].K != "restart" &&
+					rapid.Bool().Draw(t, fmt.Sprintf("r%dbigrec", i)) {
+					p.Steps[j-1] = Step{K: "write", Sync: true, Ops: []dbm.Op{{K: "set",
+						A:    dbm.Prefixes[rapid.IntRange(0, len(dbm.Prefixes)-1).Draw(t, fmt.Sprintf("r%dbigk", i))],
+						V:    fmt.Sprintf("vh%d", i),
+						VLen: rapid.IntRange(33000, 120000).Draw(t, fmt.Sprintf("r%dbigl", i))}}}
+					// large enough that the record is not flushed (and its WAL
+					// made obsolete) before the restart
+					p.Opt.MemTableSize = 512 << 10
+				}
 			}
 		}
 	}
